@@ -150,6 +150,45 @@ pub fn gen_rand(a: &Args, out: &mut Out, run0: u64, nruns: u64, strict_pct: u32)
     }
 }
 
+/// One machine stepped many thousand times: a prologue executed once, then a long loop with a rare
+/// excursion.  Whatever a step-scoped structure keeps per step (the access observer is cleared before
+/// every step) must not come back after any number of steps.
+pub fn gen_long(a: &Args, out: &mut Out, nsteps: u32) {
+    let mut rng = StdRng::seed_from_u64(a.seed.wrapping_mul(0x9E3779B97F4A7C15) ^ 0x1046);
+    let flags = SimFlags { strict: false, use_real_traps: chance(&mut rng, 50), machine_init: MachineInitStrategy::Known { value: 0 },
+                           debug_frames: false, ignore_privilege: false };
+    let mut m = M::new(1, flags, out);
+    let n1 = 40 + rng.random_range(0..60u16);
+    let src = format!("
+.orig x3000
+      LD R1, N
+      ST R1, X
+      LEA R2, X
+      STR R1, R2, #1
+      LD R3, M
+L     ADD R1, R1, #-1
+      BRnp L
+      LDI R4, P
+      ADD R3, R3, #-1
+      BRz DONE
+      LD R1, N2
+      BRnzp L
+DONE  HALT
+N     .fill x{n1:04X}
+N2    .fill x03FF
+M     .fill x0040
+P     .fill X
+X     .blkw 2
+.end
+");
+    let obj = assemble_src(&src);
+    m.load(out, &obj);
+    m.set_psr(out, 0x8002);
+    m.set_pc(out, 0x3000);
+    for _ in 0..nsteps { if m.step(out, false, false) != "ok" { break; } }
+    m.end(out);
+}
+
 // ---------------------------------------------------------------------------
 pub const PROG_ECHO: &str = "
 .orig x3000
@@ -624,7 +663,7 @@ pub fn gen_bound(a: &Args, out: &mut Out, run0: u64, reps: u64) -> u64 {
     let mut run = run0;
     let edge: [u16; 8] = [0x7FFF, 0x8000, 0x0000, 0xFFFF, 0x0001, 0x7FFE, 0x8001, 0xFFFE];
     for _ in 0..reps {
-        for case in 0..11u32 {
+        for case in 0..12u32 {
             for sub in 0..8u32 {
                 let sup = case != 4 || sub % 2 == 0;
                 let flags = SimFlags {
@@ -633,7 +672,8 @@ pub fn gen_bound(a: &Args, out: &mut Out, run0: u64, reps: u64) -> u64 {
                     debug_frames: chance(&mut rng, 50), ignore_privilege: chance(&mut rng, 25),
                 };
                 let flags = if case == 7 { SimFlags { use_real_traps: sub >= 4, strict: false, ..flags } }
-                            else if case == 10 { SimFlags { strict: true, ignore_privilege: false, ..flags } } else { flags };
+                            else if case == 10 { SimFlags { strict: true, ignore_privilege: false, ..flags } }
+                            else if case == 11 { SimFlags { debug_frames: true, strict: false, ..flags } } else { flags };
                 let mut m = M::new(run, flags, out); run += 1;
                 let psr = (if sup { 0 } else { 0x8000 }) | (rng.random_range(0..(if case == 7 { 7 } else { 8 })) << 8) | pick(&mut rng, &[1u16, 2, 4]);
                 m.set_psr(out, psr);
@@ -741,6 +781,17 @@ pub fn gen_bound(a: &Args, out: &mut Out, run0: u64, reps: u64) -> u64 {
                         m.set_reg(out, 7, bad_r7);
                         pcs = m.sim.pc;
                     }
+                    11 => { // a subroutine with a calling-convention signature entered while the stack pointer sits at the
+                            // bottom or at the top of memory: the argument slots FP+4.. wrap around the address space
+                        let n = 1 + (sub as usize % 3);
+                        let r6: u16 = [0u16, 1, 2, 3, 0xFFFF, 0xFFFE, 0xFFFD, 4][sub as usize];
+                        m.set_reg(out, 6, word(r6, 0xFFFF));
+                        m.srdef(out, pc.wrapping_add(2), Some(n), &[]);
+                        pokes.push((pc, word(0x4801, 0xFFFF)));           // JSR +1
+                        pokes.push((pc + 2, word(0x1021, 0xFFFF)));
+                        pokes.push((pc + 3, word(0xC1C0, 0xFFFF)));       // RET
+                        for (i, a) in [0xFFFBu16, 0xFFFC, 0xFFFD, 0xFFFE, 0xFFFF, 0, 1, 2, 3, 4, 5, 6].iter().enumerate() { pokes.push((*a, word(0x1100 + i as u16, 0xFFFF))); }
+                    }
                     _ => { // JSR / JSRR / TRAP / BR placed at the last address, RET to x0000
                         pcs = 0xFFFF;
                         pokes.push((0xFFFF, word(pick(&mut rng, &[0x4801u16, 0x4080, 0xF021, 0x0E00, 0xC1C0, 0x1021]), 0xFFFF)));
@@ -782,6 +833,7 @@ pub fn emit_machine(a: &Args, out: &mut Out) {
     if kind == "locks" { crate::scen3::gen_locks(a, out); return; }
     if kind == "devices" { crate::scen3::gen_devices(a, out); return; }
     if kind == "bound" { gen_bound(a, out, 1, a.get_u64("reps", if a.thorough() { 10 } else { 1 })); return; }
+    if kind == "long" { gen_long(a, out, a.get_u64("steps", 8700) as u32); return; }
     if kind == "edge" { gen_edge(a, out, 1, a.get_u64("stride", if a.thorough() { 1 } else { 3 }) as u16); return; }
     let scale = if a.thorough() { 12 } else { 1 };
     let n = |k: &str, d: u64| a.get_u64(k, d * scale);
